@@ -81,6 +81,13 @@ def run(chk):
     for polls, writes in ((['a', 'b'], ['b']), (['a', 'b'], []), ([], [])):
         cfgs.append(dict(order=['a', 'b'], att={'a': [], 'b': []}, wrong=[], fail={'a': 'none', 'b': 'none'},
                          polls=polls, writes=writes, acc={'a': 'init', 'b': 'init'}, exported=['a']))
+    # dynamically scanned modules: a pinata (unexported by definition) yields children that attach to it / to others
+    for order in (['p', 'x', 'y'], ['x', 'p', 'y']):
+        for att in ({'p': [], 'x': ['p'], 'y': ['x']}, {'p': [], 'x': [], 'y': ['p']}, {'p': ['x'], 'x': [], 'y': []}):
+            for acc in ('init', 'never'):
+                cfgs.append(dict(order=order, att=att, wrong=[], fail={m: 'none' for m in order}, polls=['x', 'y'],
+                                 writes=['y'], acc={m: acc for m in order}, exported=['x', 'y'],
+                                 pinata={'p': ['y']}))
     traces = pool_map(_run, cfgs)
     verdicts, st, trn, extra = validate_traces('Trace_Lifecycle', traces, 'Trace_Lifecycle.cfg', timeout=1500,
                                               collect=('DEVS',))
